@@ -320,6 +320,40 @@ def rule_c(ctx):
     rep.ob('C1', 'core.PrefetchDataset._single_thread_prefetch::wraps-input-in-catch-iff-configured', ok, st.node,
            '' if ok else 'on the single-thread path the input must be wrapped in CatchExceptionDataset(exceptions=<selection>) '
            'exactly when catch_filter_exception is set')
+    # ... and the wrapped dataset is what reaches the prefetch helper, with and without keys
+    pcall = [n for n in A.walk_local(st.node) if isinstance(n, ast.Call) and A.dotted(n.func) == 'single_thread_prefetch']
+    flagp = K.with_key_param(st.node)
+    if pcall and pcall[0].args:
+        for catching in (True, False):
+            for wk in ((True, False) if flagp else (None,)):
+                def decide(test, catching=catching, wk=wk):
+                    t, neg = A.strip_not(test)
+                    if A.is_self_attr(t, 'catch_filter_exception'):
+                        return catching != neg
+                    if flagp and A.is_name(t, flagp):
+                        return wk != neg
+                    if isinstance(t, ast.Compare) and A.is_self_attr(t.left, 'catch_filter_exception'):
+                        return None if catching else None
+                    return None
+                stmts, _ret = flow.run_under(st.node, decide)
+                if stmts is None:
+                    # selection of the exception type is an inner test the evaluator cannot decide: evaluate it as opaque
+                    def decide2(test, d=decide):
+                        r = d(test)
+                        return True if r is None else r
+                    stmts, _ret = flow.run_under(st.node, decide2)
+                if stmts is None:
+                    rep.undecided('C1', 'core.PrefetchDataset._single_thread_prefetch::prefetches-the-wrapped-input', st.node,
+                                  'control flow of the helper not evaluable')
+                    continue
+                upto = [x for x in stmts if x.lineno < pcall[0].lineno]
+                val = flow.symbolic_value(upto, pcall[0].args[0])
+                wrapped = any(isinstance(x, ast.Call) and A.dotted(x.func) == 'CatchExceptionDataset' for x in ast.walk(val))
+                okw = wrapped == catching
+                rep.ob('C1', 'core.PrefetchDataset._single_thread_prefetch::prefetches-the-wrapped-input(catching=%s,with_key=%s)' % (
+                    catching, wk), okw, pcall[0],
+                    '' if okw else 'with catch_filter_exception %s and with_key=%s the helper prefetches `%s`: the catch wrapper is %s' % (
+                        'set' if catching else 'off', wk, A.short(val, 60), 'bypassed' if catching else 'applied although nothing was selected'))
     call = [n for n in A.walk_local(st.node) if isinstance(n, ast.Call) and A.dotted(n.func) == 'single_thread_prefetch']
     ok = len(call) == 1 and isinstance(A.parent(call[0]), ast.Return)
     rep.ob('C1', 'core.PrefetchDataset._single_thread_prefetch::returns-the-prefetching-iterator', ok, st.node, '')
